@@ -206,7 +206,10 @@ def run_lines(binary, lines, timeout=1800, chunk=None, mem_limit=None):
             if got and got[-1] == "":
                 got.pop()
             rc = p.returncode
-            err = p.stderr.decode("utf-8", "replace")[-300:]
+            err = p.stderr.decode("utf-8", "replace")
+            if len(err) > 900:
+                # keep the message (first lines) as well as the end of a back-trace
+                err = err[:500] + "\n...\n" + err[-300:]
         except subprocess.TimeoutExpired as e:
             got = (e.stdout or b"").decode("utf-8", "replace").split("\n")
             if got and got[-1] == "":
@@ -488,6 +491,15 @@ def prelude(rep, cli=False, extra_modules=()):
         build_cli()
     try:
         rep.set_proof(*check_props(rep.prop, extra_modules))
+        if rep.tier == "thorough":
+            # independent re-check of the compiled proofs (the toolchain's own .olean re-checker)
+            mods = ["RsjProps." + rep.prop] + list(extra_modules)
+            t0 = time.time()
+            with Lock("lake"):
+                rc, out = sh(["lake", "env", "leanchecker"] + mods, cwd=LEAN_DIR, timeout=3600)
+            rep.extra["leanchecker"] = {"modules": mods, "rc": rc, "seconds": round(time.time() - t0, 1)}
+            if rc != 0:
+                raise BrokenTie("leanchecker rejects the compiled proofs of %s" % ", ".join(mods), out[-4000:])
     except BrokenTie as e:
         rep.obligations = max(rep.obligations, 1)
         rep.broken_tie(e.what, e.detail)
